@@ -119,7 +119,8 @@ Definition approx_ctor_legacy := ctor_gen approx_values_legacy.
 
 (* ---- transformer: fit (grid ends from the RAW diagram of the degree, infinite bars included: the
         "TODO: remove infinities" of transformer.py) then transform (the approximate class's values,
-        flattened on request) ---- *)
+        flattened on request).  An end stored by an earlier fit() is learned afresh (transformer.py _is_learned),
+        so fit depends only on the start / stop the USER gave: the model of fit is stateless. ---- *)
 Definition raw_births (d : list xbar) : list Q := flat_map (fun b => match fst b with Fin x => [x] | PInf => [] end) d.
 Definition has_inf_death (d : list xbar) : bool := existsb (fun b => match snd b with PInf => true | _ => false end) d.
 Definition raw_deaths (d : list xbar) : list Q := flat_map (fun b => match snd b with Fin x => [x] | PInf => [] end) d.
